@@ -47,6 +47,9 @@ CLAUSES (statement + quantifier, clause -> deciding assertion [facets] -> popula
                                                                                                            labels-last-single labels-first-single
  15  observe: returned DataFrame AND    -> CSV read back == returned frame at %.6f [all: half the cases]   csv
      the CSV written
+ 16  (implementation axis) counts per  -> dense_wide: >= 130 / >= 260 partners of ONE centre in ONE bin,     per-centre-bin-count-130+ / -260+
+     bin beyond 127 / 255 / 32767          >= 32768 pairs in one bin; total and partial columns                per-centre-same-species-bin-count-*
+                                                                                                           bin-total-count-32768+
 Axes behind the clauses that were weak before this round and got a class now: particle number (was <= 40: size_boundary /
 size_sweep / size_boundary_large, `size-boundary-<N>`), bins and frames at block boundaries (count_boundary), per-frame
 labels (was absent), TIMESTEP schedules (was absent), K = 7, 8 in random data, histories on one object other than
@@ -85,7 +88,8 @@ RULE = ("generated trajectories: d {2,3} x cell {ortho unequal edges, LAMMPS tri
         "block boundaries 31..257 (thorough: ..1025) and anywhere in 41..260 (..1030), bins 31..257 and frames 31..66 "
         "at block boundaries, value-equal argument representations (int64 cell / coordinates, int32 / int8 / float64 / "
         "uint8 / uint16 / uint32 labels, list / tuple / float / bool mask, numpy / int width), whole batches inside the "
-        "Cartesian half box of a strongly tilted cell, and tables kept alive over interleaved evaluations.  non-trivial "
+        "Cartesian half box of a strongly tilted cell, dense-wide systems (>= 130 / 260 partners of one centre in one "
+        "bin, >= 32768 pairs in one bin), and tables kept alive over interleaved evaluations.  non-trivial "
         "= at least two columns populated inside the histogram range (K in 2..5: two g columns with a non-zero entry; K "
         "= 1 or >= 6: the r and gr columns) and (K >= 2 or triclinic or partially periodic or N > 40)")
 ASSUMPTIONS = [
@@ -115,7 +119,7 @@ MANIFEST = {
              "documented defaults / minimal sizes / particle numbers at block boundaries (31..257 quick, ..1025 "
              "thorough; random facet + exhaustive sweep) / bins and frames at block boundaries / value-equal argument "
              "representations (incl. unsigned labels) / whole batches inside the Cartesian half box of a tilted cell / "
-             "tables kept alive over interleaved evaluations, plus an exhaustive species-pair -> column table for K = "
+             "dense-wide systems (per-centre per-bin counts beyond 127 / 255, bin totals beyond 32767) / tables kept alive over interleaved evaluations, plus an exhaustive species-pair -> column table for K = "
              "1..5 (both index orders, 2D and 3D)."),
     "note": ("Trusted base: pbt/ref/geom.py (fractional-rounding minimum image) and pbt/ref/paircorr.py (numpy only). "
              "Bin-edge and half-cell-tie ambiguity is resolved by an interval oracle, so the half-open/closed bin "
@@ -487,6 +491,75 @@ def size_sweep(tier):
             v.case = case
             raise
         yield case, info
+
+
+# ----------------------------------------------------------------------------- dense systems, wide bins
+
+
+def dense_geometry(draw, d):
+    """Cell, positions (one frame), bin width of a dense-wide configuration: enough particles and bins wide enough that
+    ONE bin of ONE centre particle holds >= 130 (>= 260) partners.  'one-cluster': N particles inside a ball smaller
+    than half a bin width (every pair in bin 0; N - 1 partners for the first centre); 'gas-wide': ideal gas in a box of
+    side ~10 with two bins (the outer shell holds 46 % (3D) / 59 % (2D) of the particles)."""
+    kind = draw(st.sampled_from(["one-cluster", "one-cluster", "gas-wide"]))
+    tri = draw(st.booleans())
+    L = np.array([draw(st.sampled_from([10.0, 10.0, 11.5, 12.0])) for _ in range(d)])
+    H = np.diag(L)
+    if tri:
+        H[1, 0] = draw(st.sampled_from([-0.3, 0.2, 0.4])) * L[0]
+    cell = {"d": d, "kind": "tri" if tri else "ortho", "H": H, "lo": np.zeros(d), "origin": "zero"}
+    rng = np.random.default_rng(draw(st.integers(0, 2 ** 32 - 1)))
+    lmin = float(L.min())
+    if kind == "one-cluster":
+        N = draw(st.sampled_from([140, 200, 270, 300, 330]))
+        rdelta = float(draw(st.sampled_from([1.0, 2.0, 2.5])))
+        u = rng.normal(size=(N, d))
+        u /= np.linalg.norm(u, axis=1)[:, None]
+        ball = u * (0.2 * rdelta * rng.random(N) ** (1.0 / d))[:, None]        # radius 0.2 w: every distance < 0.4 w
+        pos = rng.random(d) @ H + ball
+    else:
+        N = draw(st.sampled_from([230, 450] if d == 2 else [300, 600]))
+        rdelta = lmin / (2.0 * (2 + draw(fl(0.02, 0.2))))
+        pos = rng.random((N, d)) @ H
+    return cell, pos, float(rdelta), kind, N, rng
+
+
+@st.composite
+def dense_case_st(draw):
+    d = draw(st.sampled_from([2, 3]))
+    K = draw(st.sampled_from([1, 2, 2, 3, 5, 6]))
+    cell, pos, rdelta, kind, N, rng = dense_geometry(draw, d)
+    how = draw(st.sampled_from(["random", "sorted"]))
+    types = random_labels(rng, N, K, how)
+    if K >= 2 and draw(st.booleans()):
+        # one large species, so that a PARTIAL column meets the large per-centre counts as well
+        types = np.where(rng.random(N) < 0.85, 1, types)
+        types[:K] = np.arange(1, K + 1)
+        if how == "sorted":
+            types = np.sort(types)
+    return {"d": d, "cell": cell, "pos": [pos], "types": types.astype(int), "ppp": np.ones(d, dtype=int), "K": K,
+            "kind": kind, "timesteps": [0], "outside": False, "rdelta": rdelta, "wmode": "wide", "csv": False,
+            "labels": how, "dense": True}
+
+
+def per_centre_counts(case, weights=None):
+    """Largest number of partners j > i of ONE centre particle i inside ONE bin (what a narrow per-batch accumulator must
+    hold), the same for same-species partners, and the largest total count of a bin (frame 0, definite pairs)."""
+    pos = np.asarray(case["pos"][0], dtype=float)
+    H = case["cell"]["H"]
+    nbin = int(float(np.diag(H).min()) / (2.0 * case["rdelta"]))
+    ii, jj, C, definite, _ = pc.pair_outcomes(pos, H, case["ppp"], case["rdelta"], nbin, _band(case))
+    inr = definite & C[:, :nbin].any(axis=1)
+    k = C[:, :nbin].argmax(axis=1)
+    N = len(pos)
+    w = np.ones(len(ii)) if weights is None else np.asarray(weights, dtype=float)
+    cnt = np.zeros((N, nbin))
+    np.add.at(cnt, (ii[inr], k[inr]), w[inr])
+    t = np.asarray(case["types"])
+    same = inr & (t[ii] == t[jj])
+    cs = np.zeros((N, nbin))
+    np.add.at(cs, (ii[same], k[same]), w[same])
+    return int(cnt.max(initial=0)), int(cs.max(initial=0)), int(cnt.sum(axis=0).max(initial=0))
 
 
 # ----------------------------------------------------------------------------- argument representations
@@ -873,6 +946,13 @@ def check(case):
         tags.append(f"rep-{k_}-{v_}")
     extra = {"ambiguous_pairs": int(ref["ambiguous"]), "tied_pairs": int(ref["ties"]),
              "columns_checked": len(pc.column_names(K)) - 1}
+    if case.get("dense"):
+        c_all, c_same, c_bin = per_centre_counts(case)
+        tags.append("per-centre-bin-count-" + ("260+" if c_all >= 260 else "130+" if c_all >= 130 else "below-130"))
+        tags.append("per-centre-same-species-bin-count-" + ("260+" if c_same >= 260 else "130+" if c_same >= 130 else "below-130"))
+        tags.append("bin-total-count-" + ("32768+" if c_bin >= 32768 else "below-32768"))
+        extra["max_per_centre_bin_count"] = c_all
+        nontrivial = c_all >= 130
     if case.get("halfbox"):
         nw = wrapped_pairs(case)
         tags.append("all-batches-inside-cartesian-half-box")
@@ -1022,7 +1102,7 @@ _sel = Facet("selector_table", check=selector_table, exhaustive=True, describe=d
 _sel.replay = lambda case: guarded_check(selector_check, case)  # noqa: E731
 
 _sweep = Facet("size_sweep", check=size_sweep, exhaustive=True, describe=lambda case: describe(case),
-               rule="finite: every boundary particle number of the tier once (quick: 26 values 31..257; thorough: + 35 "
+               rule="finite: every boundary particle number of the tier once (quick: 26 values 31..257; thorough: + 19 "
                     "values 266..1025), K / dimension / cell / mask / label arrangement cycling with the index, one "
                     "frame, 3..6 bins")
 _sweep.replay = lambda case: guarded_check(check, case)  # noqa: E731
@@ -1070,6 +1150,11 @@ FACETS = [
     Facet("deep", sized_case_st(SIZES_QUICK, (41, 160), frames=(3, 4, 6, 8), bins=(40, 400)), check, quick=0, thorough=400,
           describe=describe,
           rule="thorough tier only: 41..260 particles, 3..8 frames (per-frame labels), 40..400 bins; non-trivial as in RULE"),
+    Facet("dense_wide", dense_case_st(), check, quick=24, thorough=600, describe=describe, shards_quick=2,
+          rule="dense-wide: 140..330 particles inside a ball below half a bin width, or an ideal gas of 230..600 particles "
+               "with two bins: one bin of one centre particle holds >= 130 / >= 260 partners (narrow integer "
+               "accumulators wrap at 128 / 256 / 32768), K 1..6 with one large species; non-trivial: per-centre "
+               "per-bin count >= 130"),
     Facet("representations", rep_case_st(), check, quick=140, thorough=5000, describe=describe, shards_quick=2,
           rule="integer-valued geometry passed in other representations: int64 cell / bounds / coordinates, labels int32 / "
                "int8 / float64 / uint32 / uint16 / uint8, mask as list / tuple / float / bool / int32, width as np.float64 / np.float32 / int; "
